@@ -169,11 +169,30 @@ def run_case(ctx, case):
 
     def fail(what, key):
         ctx.fail(case, what, key=key)
+    import logging
+    import os
+    lg = logging.getLogger("NetQASM")
+    old_level, streams, sink = lg.level, [], None
+    if ctx.evaluations % 5 == 2:
+        # the application runs with the package's logging at DEBUG (messages are formatted, and thrown away): turning on the
+        # log changes nothing of what the program does
+        sink = open(os.devnull, "w")
+        for h in lg.handlers:
+            if isinstance(h, logging.StreamHandler):
+                streams.append((h, h.setStream(sink)))
+        lg.setLevel(logging.DEBUG)
+        ctx.count("programs_run_with_debug_logging")
     try:
         res = hostdiff.run_differential(prog, script, fail, ctx.count, neighbours=ctx.evaluations % 3 == 1)
     except hostdiff.Discard as d:
         ctx.count("discarded_" + str(d).split(":")[0].replace(" ", "_"))
         return ctx.case(case, False)
+    finally:
+        if sink is not None:
+            lg.setLevel(old_level)
+            for h, st in streams:
+                h.setStream(st)
+            sink.close()
     nontrivial = False
     if res.get("ref") is not None:
         ref = res["ref"]
